@@ -159,8 +159,9 @@ def r15e(ctx: Context) -> None:
                 for call in [c for c in ast.walk(cnode.ast_node) if isinstance(c, ast.Call)]:
                     name = dotted(call.func) or ""
                     if name.endswith("__handle_error"):
-                        soft = any(k.arg == "exit_on_error" and isinstance(k.value, ast.Constant) and k.value.value is False for k in call.keywords)
-                        soft = soft or (len(call.args) >= 3 and isinstance(call.args[2], ast.Constant) and call.args[2].value is False)
+                        # 'do not exit': a literal False for the bool parameter of the error handler
+                        soft = any(isinstance(k.value, ast.Constant) and k.value.value is False for k in call.keywords)
+                        soft = soft or any(isinstance(a, ast.Constant) and a.value is False for a in call.args)
                         if not soft:
                             blocked.add(cnode.nid)
                     if name.endswith("exit_application") and call.args and enum_member(call.args[0], "ApplicationResult") == "SYSTEM_ERROR":
